@@ -1435,8 +1435,10 @@ func (self *Analyzer) matchExpression(node pAst.MatchExpression) ast.AnalyzedMat
 		containsDefault := false
 		for _, lit := range arm.Literals {
 			if !lit.IsLiteral() {
-				defaultArmSpan = &arm.Range
-				action := self.expression(arm.Action)
+				// The action was analyzed above: analyzing it again would double the work per nesting level
+				// (and report its diagnostics twice).
+				armSpan := arm.Range
+				defaultArmSpan = &armSpan
 				defaultArm = &action
 				containsDefault = true
 			}
